@@ -6,7 +6,7 @@ import Shentu.Proofs.Tactics
   coins/Dec facts, "upsert" store lemmas for pools and providers, and a decomposition of
   `purchaseCore` into its guard, its payment step and its bookkeeping step.
 -/
-namespace Shentu.Shield
+namespace Shentu.Shield.Limit
 open Shentu
 
 /-! ## coins and decimals -/
@@ -608,4 +608,4 @@ theorem withdrawCollateral_ok (e : Env) (s s' : State) (a : Addr) (amt : Int) (h
     rw [findProvider_setProvider, if_neg (by show ¬ b = p.addr; rw [hpa]; exact hb)]
     rfl
 
-end Shentu.Shield
+end Shentu.Shield.Limit
